@@ -90,11 +90,12 @@ CLAIMS = {
             "overwriting every cell it can reach cannot change singleton or configuration-owned cells that later calls read) and C12_history (a response depends on state, request and pre-set headers only). "
             "Tie: history and serve suites run with -adversarial (the harness overwrites every slice of the Config passed in, of every Config() result, and - inside the wrapped handler - of the request and response header maps) and are compared with the model.",
             '6/C12', 'PARTIAL w.r.t. Go aliasing: that the extractor classifies every Go expression correctly (v[:1] shares, []string{x} and Header.Add/Set allocate, slices.Clone/strings.Split/Elems allocate) is trusted and exercised by the adversarial harness, not proved.'),
-    'C13': ('proof', 'Lean 4 theorems (partial: self-match, shape of accepted patterns, grammar-independent rejections) + differential tie on grammar-directed strings',
-            "Theorems C13_self (an accepted pattern without `*.`/`:*`, presented verbatim as Origin within the length cap, is parsed by the request-side lexer into an origin the pattern denotes), C13_accepted_shape (scheme non-empty, at most 64 bytes, not `file`; "
-            "https never with an IP host; an explicit port never the scheme's default), C13_reject_null/_star/_file/_no_sep/_bad_first_byte (Props/C13.lean). C13_accept_full (every string of the documented grammar is accepted) and the remaining "
-            "single-defect rejections are NOT proved yet and rest on the `lex` suite (ParsePattern verdict and Reason, Parse results on grammar-directed strings, every maximum at once, single-defect mutations).",
-            '6/C13', 'PARTIAL: relative to the oracles (idna for xn-- labels, IPv6 netip) and to the model of the plain-ASCII IDNA rule; acceptance of the whole documented grammar is tie-only.'),
+    'C13': ('proof', 'Lean 4 theorems (acceptance of the documented grammar for domain hosts, self-match, documented constants and alphabets, shape of accepted patterns, grammar-independent rejections) + differential tie on grammar-directed strings with a grammar judge',
+            "Theorems C13_accept (every pattern of the documented form with a domain host - Spec/Grammar.lean, the grammar given generatively by parts: scheme, optional `*.`, LDH labels, optional trailing dot, optional port or `:*` - is accepted by the model of ParsePattern "
+            "for every behaviour of the library oracles and parses to exactly its parts), C13_self (an accepted pattern without `*.`/`:*`, presented verbatim as Origin within the length cap, is parsed by the request-side lexer into an origin the pattern denotes), "
+            "C13_constants / C13_alphabets (the regenerated length maxima, ports, separators and byte tables are the documented ones; the request-side cap is the sum of the maxima), C13_accepted_shape, C13_reject_null/_star/_file/_no_sep/_bad_first_byte (Props/C13.lean). "
+            "Tie: `lex` suite (ParsePattern verdict and Reason, Parse results on grammar-directed strings, patterns at every maximum at once, single-defect and boundary-splice mutations), judged by an independent grammar oracle.",
+            '6/C13', 'PARTIAL: acceptance of IP-literal and Punycode hosts and the remaining single-defect rejections are tie-only (their verdicts come from netip and idna, modelled as oracles); grey zones (`_`, hyphens in label positions 3-4, digit-leading last label) are excluded from the grammar.'),
     'C14': ('proof', 'Lean 4 equivalence proof model = specification (induction over fuel/lines/elements; strict total order on byte strings) + differential tie',
             "Theorems C14 / C14_sound / C14_browser / C14_wf (Props/C14.lean): for every SortedSet maintained by Add and every sequence of field lines over arbitrary bytes, "
             "the model of headers.Check (windowed comma cut of maxLen+3 bytes, bounded OWS trimming with its check-before-test order, global empty-element counter, IndexAfter on the "
